@@ -68,6 +68,9 @@ def gen_value(rng, prefixes):
         v = rng.choice([5, -3, 10 ** 25])
         return {"$": v if rng.random() < 0.5 else str(v), "type": k}
     if r < 0.64:
+        if rng.random() < 0.12:
+            # the special values of xsd:double in their XML Schema spelling (a foreign text may hold them; NaN is excluded)
+            return {"$": rng.choice(["INF", "-INF", "+INF"]), "type": "xsd:double"}
         v = rng.choice([0.5, 1e300, 3.0, 0.1])
         return {"$": v if rng.random() < 0.5 else repr(v), "type": "xsd:double"}
     if r < 0.70:
